@@ -190,7 +190,9 @@ pub fn check_on(tier: Tier, only: Option<Vec<Selected>>) -> i32 {
         .filter(|s| !s.is_empty())
         .unwrap_or_else(|| "python3".to_string());
     let limit: usize = std::env::var("PDLMC_LIMIT").ok().and_then(|s| s.parse().ok()).unwrap_or(usize::MAX);
-    let jobs: Vec<(&Selected, bool)> = sel.states.iter().take(limit).flat_map(|s| [(s, false), (s, true)]).collect();
+    // thorough: every 2nd of the ~10^4 selected states (the selection itself is 8x the quick one)
+    let py_stride: usize = std::env::var("PDLMC_PY_STRIDE").ok().and_then(|s| s.parse().ok()).unwrap_or(if thorough && !single { 2 } else { 1 });
+    let jobs: Vec<(&Selected, bool)> = sel.states.iter().step_by(py_stride.max(1)).take(limit).flat_map(|s| [(s, false), (s, true)]).collect();
     let t_gen = std::sync::atomic::AtomicU64::new(0);
     let t_py = std::sync::atomic::AtomicU64::new(0);
     let t_or = std::sync::atomic::AtomicU64::new(0);
@@ -455,7 +457,8 @@ pub fn check_on(tier: Tier, only: Option<Vec<Selected>>) -> i32 {
     ev.set("transitions", json!(e.transitions));
     ev.set("compiled_states", json!(sel.states.len()));
     ev.set("strata", json!(sel.strata.iter().map(|(f, d, n, t)| json!({"family": f, "depth": d, "eligible": n, "compiled": t})).collect::<Vec<_>>()));
-    ev.set("exhaustive", json!(!sel.strata.iter().any(|(_, _, n, t)| t < n)));
+    ev.set("stride", json!(py_stride));
+    ev.set("exhaustive", json!(py_stride <= 1 && !sel.strata.iter().any(|(_, _, n, t)| t < n)));
     ev.set("traces_validated_against_impl", json!(counters.get("parse-inputs").copied().unwrap_or(0) + counters.get("values").copied().unwrap_or(0)));
     ev.set("outcomes", json!(counters));
     ev.set("samples", json!(samples));
